@@ -130,6 +130,10 @@ def run(ctx):
             else:
                 break
         p = Proxy(pwreq, 5000)
+        if si % 7 == 3:
+            # the medium of the script fails after a few entries (disk full): the recording may stop, the relay must not notice
+            p.fail_after = r.choice([0, 1, 2, 5])
+            ctx.count("sessions_with_a_failing_recorder")
         vi = si_ = 0
         ok = True
         ml = ["px-new %d %d" % (pwreq, 5000)]
@@ -145,7 +149,7 @@ def run(ctx):
             else:
                 ch = sch[si_]; si_ += 1
                 fwd, exc = p.server_sends(ch)
-            rp = {"input": {"handshake": desc, "password_required": pwreq, "viewer_stream": hx(vstream), "server_stream": hx(sstream)[:4000],
+            rp = {"input": {"handshake": desc, "password_required": pwreq, "recorder_fails_after_entries": p.fail_after, "viewer_stream": hx(vstream), "server_stream": hx(sstream)[:4000],
                             "viewer_chunks": [len(c) for c in vch], "server_chunks": [len(c) for c in sch], "order": "".join(order)},
                   "how": "in-memory VNCLoggingServerProxy/VNCLoggingClientProxy pair; every chunk must appear unchanged on the other side within the same dataReceived call"}
             if exc:
@@ -171,7 +175,7 @@ def run(ctx):
         ctx.count("malformed" if malformed else "wellformed")
         ctx.count("recording_stopped" if not p.srv.recording else "recording_on")
         ctx.count("logger_stopped" if p.cl.vnclog is None else "logger_on")
-        if ok:
+        if ok and p.fail_after is None:
             meta.append((len(lines), ml, recs, closes, p.srv.recording, {"handshake": desc, "password_required": pwreq, "viewer_stream": hx(vstream), "viewer_chunks": [len(c) for c in vch]}))
             lines += ml
     unlimit_memory(oldlim)
